@@ -303,12 +303,21 @@ def rule_T1(text):
     return text, fired
 
 
+def _for_over_iter(text, mask, method):
+    """find `for VAR in VEC.<method>() { BODY }`; returns (match, body_with_braces, end) shaped like _closure_for_each's result"""
+    for m in re.finditer(r'\bfor\s+(?P<var>\w+)\s+in\s+(?P<vec>[\w\.]+)\s*\.' + method + r'\s*\(\s*\)\s*(?P<ob>\{)', mask):
+        ob = m.start('ob')
+        cb = match_brace(mask, ob)
+        return m, text[ob:cb + 1], cb + 1
+    return None
+
+
 def rule_T2(text):
-    """V.iter_mut().for_each(|s| { ..*s.. }); -> indexed while loop with *s -> V[verif_i]"""
+    """V.iter_mut().for_each(|s| { ..*s.. });  or  for s in V.iter_mut() { ..*s.. }  -> indexed while loop with *s -> V[verif_i]"""
     fired = 0
     while True:
         mask = code_mask(text)
-        hit = _closure_for_each(text, mask, r'(?P<vec>[\w\.]+)\s*\.iter_mut\s*\(\s*\)')
+        hit = _closure_for_each(text, mask, r'(?P<vec>[\w\.]+)\s*\.iter_mut\s*\(\s*\)') or _for_over_iter(text, mask, 'iter_mut')
         if not hit:
             break
         m, body, end = hit
@@ -329,11 +338,11 @@ def rule_T2(text):
 
 
 def rule_T5(text):
-    """V.iter().for_each(|x| EXPR); -> indexed while loop with `let x = &V[verif_i];`"""
+    """V.iter().for_each(|x| EXPR);  or  for x in V.iter() { BODY }  -> indexed while loop with `let x = &V[verif_i];`"""
     fired = 0
     while True:
         mask = code_mask(text)
-        hit = _closure_for_each(text, mask, r'(?P<vec>[\w\.]+)\s*\.iter\s*\(\s*\)')
+        hit = _closure_for_each(text, mask, r'(?P<vec>[\w\.]+)\s*\.iter\s*\(\s*\)') or _for_over_iter(text, mask, 'iter')
         if not hit:
             break
         m, body, end = hit
@@ -550,7 +559,20 @@ def rule_T7(body, k, header):
     m = found[k - 1]
     orig_params = [x.strip().split(':')[0].strip() for x in m.group(1).split(',') if x.strip()]
     hm = re.match(r'\s*\|([^|]*)\|', header)
-    new_params = [x.strip().split(':')[0].strip() for x in hm.group(1).split(',') if x.strip()] if hm else None
+    def _top_split(t):
+        parts, d, cur = [], 0, ''
+        for ch in t:
+            if ch in '<([':
+                d += 1
+            elif ch in '>)]':
+                d -= 1
+            if ch == ',' and d == 0:
+                parts.append(cur)
+                cur = ''
+            else:
+                cur += ch
+        return parts + [cur]
+    new_params = [x.strip().split(':')[0].strip() for x in _top_split(hm.group(1)) if x.strip()] if hm else None
     if new_params != orig_params:
         raise ExtractError('closure #%d: parameter names %s do not match the annotation %s' % (k, orig_params, new_params))
     # body of the closure: up to the terminating `;` / `,` / `)` at depth 0
@@ -718,6 +740,28 @@ def extract_fn(repo: str, spec: dict):
     return out, info
 
 
+def alpha_rename(body: str, have: list, want: list, where: str):
+    """bound-variable renaming of closure / loop parameters to the names the contract was written for: `have[i]` -> `want[i]`
+    in BODY (identifier occurrences in code only). Refused (UNDECIDED) when arities differ or a wanted name already occurs in
+    BODY as a different identifier (it would be captured)."""
+    if len(have) != len(want):
+        raise ExtractError('%s: has parameters %s, the contract was written for %s' % (where, have, want))
+    fired = 0
+    for h, w in zip(have, want):
+        if h == w:
+            continue
+        mask = code_mask(body)
+        if re.search(r'\b' + re.escape(w) + r'\b', mask):
+            raise ExtractError('%s: parameter `%s` cannot be renamed to `%s` (the body already uses that name)' % (where, h, w))
+        out, last = '', 0
+        for m in re.finditer(r'\b' + re.escape(h) + r'\b', mask):
+            out += body[last:m.start()] + w
+            last = m.end()
+        body = out + body[last:]
+        fired += 1
+    return body, fired
+
+
 def extract_closure_fn(repo: str, spec: dict):
     """A closure bound by `let NAME = [move] |PARAMS| BODY;` inside function spec['fn'] becomes a function:
     the template supplies the signature (captured variables and parameters, with types), the extractor
@@ -731,8 +775,6 @@ def extract_closure_fn(repo: str, spec: dict):
         raise ExtractError('%s::%s: closure binding `let %s = |..| ..` not found' % (spec['file'], spec['fn'], spec['let']))
     params = [x.strip().split(':')[0].strip() for x in m.group(1).split(',') if x.strip()]
     want = [x for x in spec.get('params', '').split(',') if x]
-    if params != want:
-        raise ExtractError('%s::%s: closure %s has parameters %s, the contract was written for %s' % (spec['file'], spec['fn'], spec['let'], params, want))
     j = m.end()
     while seg_mask[j] in ' \t\n':
         j += 1
@@ -744,6 +786,9 @@ def extract_closure_fn(repo: str, spec: dict):
         body = '{ ' + seg_text[j:end].strip() + ' }'
     raw = seg_text[m.start():end]
     fired = {}
+    if params != want:
+        body, n = alpha_rename(body, params, want, '%s::%s: closure %s' % (spec['file'], spec['fn'], spec['let']))
+        fired['alpha-rename:%s->%s' % (','.join(params), ','.join(want))] = n
     for r in spec.get('rules', []):
         body, n = RULES[r](body)
         fired[r] = n
@@ -773,13 +818,14 @@ def extract_loop_body_fn(repo: str, spec: dict):
     w = re.search(r'while\s+let\s+Ok\((\w+)\)\s*=\s*receiver\.recv\(\)\s*\{', seg_mask[m.end():])
     if not w:
         raise ExtractError('%s::%s: `while let Ok(x) = receiver.recv()` not found' % (spec['file'], spec['fn']))
-    if w.group(1) != spec.get('var'):
-        raise ExtractError('%s::%s: loop variable is `%s`, the contract was written for `%s`' % (spec['file'], spec['fn'], w.group(1), spec.get('var')))
     ob = loc['body_open'] + m.end() + w.end() - 1
     cb = match_brace(src.mask, ob)
     raw = src.text[ob:cb + 1]
     body = raw
     fired = {}
+    if w.group(1) != spec.get('var'):
+        body, k = alpha_rename(body, [w.group(1)], [spec.get('var')], '%s::%s: loop variable' % (spec['file'], spec['fn']))
+        fired['alpha-rename:%s->%s' % (w.group(1), spec.get('var'))] = k
     bm = code_mask(body)
     # `break` -> `return` (only breaks that are not inside a nested loop of BODY)
     out, last, n = '', 0, 0
